@@ -270,6 +270,8 @@ func (x *Exprer) compute(v ssa.Value) *Expr {
 			return negate(x.E(v.X))
 		case token.ARROW:
 			return mk("un", "<-", v, x.E(v.X))
+		case token.SUB:
+			return mk("bin", "*", v, x.E(v.X), mk("const", "-1", nil)) // -x is x * -1
 		default:
 			return mk("un", v.Op.String(), v, x.E(v.X))
 		}
@@ -579,6 +581,23 @@ func (x *Exprer) cell(a *ssa.Alloc) *Expr {
 	}
 	scan(a, true, -1)
 	tname := typeStr(elemT)
+	if len(initCalls) > 0 && len(fieldStores) == 0 {
+		// a cell that is filled by a call (decode target) and otherwise only zeroed or copied onto itself — the shape a
+		// named result takes — is named by the call, like a plain local
+		eff := 0
+		for _, w := range whole {
+			if c, ok := w.(*ssa.Const); ok && c.Value == nil {
+				continue
+			}
+			if ld, ok := w.(*ssa.UnOp); ok && ld.Op == token.MUL && ld.X == ssa.Value(a) {
+				continue
+			}
+			eff++
+		}
+		if eff == 0 {
+			whole = nil
+		}
+	}
 	switch {
 	case len(whole) == 1 && len(fieldStores) == 0:
 		return x.E(whole[0])
@@ -960,7 +979,7 @@ func canonCall(c *Expr) *Expr {
 	two := len(c.Args) == 2
 	switch {
 	case n == "bytes.Equal" && two:
-		return orderPair("==b", c.Args[0], c.Args[1], c.Val)
+		return orderPair("==", c.Args[0], c.Args[1], c.Val) // same relation as == on arrays of bytes
 	case two && (strings.Contains(n, "Height)") || strings.Contains(n, "exported.Height.")) && isOrd(last):
 		return ordRewrite(last, "H", c)
 	case two && (strings.HasPrefix(n, "cosmos-sdk/types.(Int)") || strings.HasPrefix(n, "cosmos-sdk/types.(Dec)") || strings.HasPrefix(n, "cosmos-sdk/types.(Uint)")) && isOrd(last):
